@@ -400,7 +400,8 @@ func oracleC14ios(c *Case) Verdict {
 						sig := "ios:transient-flip"
 						if r.final.Canon(sc) != r.b.Canon(sc) && iosSameLines(r.final, r.b) {
 							sig = "ios:F18-all-lines-present-but-wrong-run-order"
-						} else if strings.HasPrefix(r.steps[i][0], "no permit ") || strings.HasPrefix(r.steps[i][0], "no deny ") || iosRebuilt(r, i) {
+						} else if (strings.HasPrefix(r.steps[i][0], "no permit ") || strings.HasPrefix(r.steps[i][0], "no deny ") || iosRebuilt(r, i)) &&
+							!iosShareRemark(r.a.ACLs[oldACL], r.b.ACLs[newACL]) {
 							sig = "ios:F17-acl-without-common-line-rebuilt-in-place"
 						} else if iosIsF8(r, i, cur, line) {
 							sig = "ios:F8-moved-line-exposes-line-deleted-later"
@@ -527,6 +528,23 @@ func iosRebuilt(r *iosRun, step int) bool {
 	for _, s := range r.steps[:step+1] {
 		if strings.HasPrefix(s[0], "no permit ") || strings.HasPrefix(s[0], "no deny ") {
 			return true
+		}
+	}
+	return false
+}
+
+// iosShareRemark: the two ACLs have a remark line in common. Then they are
+// not "without any common line", and the tool edits incrementally; F17 is
+// about ACLs that share nothing.
+func iosShareRemark(la, lb []*iosm.Entry) bool {
+	for _, x := range la {
+		if !x.IsRemark {
+			continue
+		}
+		for _, y := range lb {
+			if y.IsRemark && y.Remark == x.Remark {
+				return true
+			}
 		}
 	}
 	return false
